@@ -192,11 +192,16 @@ CLAIMS = {
     'C05': dict(
         text="PARTIAL. Proved: (a) the cache index (C20: entries, check, exact retrieval on prefix-uniform tries, counter-witness) and "
              "c05_single_key_uniform / c05_single_key_exact (every operator cache of a single-variable query stays prefix-uniform, "
-             "so its retrieval is exact after every history); (b) THE EVALUATOR with the result cache enabled, for conjunctive "
-             "single-variable queries: c05_single_variable_conj - each of any number of consecutive evaluations of the query object "
-             "by the L2 machine (Machine.lean: caching branches of Comparator/AND, coverage poisoning, update_cache, "
-             "yield_final_output_from_cache) returns exactly the L1 rows, in order - and c05_single_variable_conj_on_off (the same "
-             "rows as with the cache disabled, from any state). NOT proved: other shapes (disjunctions, several variables - for "
+             "so its retrieval is exact after every history); (b) THE EVALUATOR with the result cache enabled, for EVERY "
+             "single-variable tree of conjunctions and disjunctions over comparisons, truth tests and predicates (negations at the "
+             "leaves, as not_ builds them; non-empty domain): c05_single_variable_tree - each of any number of consecutive evaluations "
+             "of the query object by the L2 machine (Machine.lean: caching branches of Comparator / AND / ElseIf, coverage poisoning, "
+             "update_cache, yield_final_output_from_cache, the duplicate tracking sets) returns exactly the L1 rows, in order - and "
+             "c05_single_variable_tree_on_off (the same rows as with the cache disabled). Invariant per node: a cache specification "
+             "(every stored pair is object identity -> the node's is_false for it, false entries only where false outputs are asked "
+             "for) together with 'every stored duplicate key clashes with the object at hand' (MachineTree.lean: bound_ok_y; "
+             "MachineTreeTop.lean: top_ok_y; the earlier conjunctive theorem c05_single_variable_conj is kept). NOT proved: "
+             "several variables, flatten, for_all, sub-queries, rule trees - for "
              "which the full statement is false of the code: known findings C05-F1..F5). Decided there by the differential check: "
              "caching on vs off vs oracle vs the L2 machine, first and later evaluations (a third of the join cases after an "
              "abandoned evaluation), over joins (1-4 variables, shuffled declaration order), disjunctions over equal/different "
@@ -205,8 +210,9 @@ CLAIMS = {
              "reproduces the implementation's rows; to F3/F4/F5 (no model reproduces them) only inside their scope and when caching "
              "off gives the specified rows: a mutation that changes behaviour inside those three scopes in a way that is still "
              "wrong may be masked.",
-        tech="Lean 4 proof (cache index; evaluator with caches for single-variable conjunctive queries, induction over the tree "
-             "with a specification per operator cache) + differential (cache on/off/oracle/L2 machine) correspondence"),
+        tech="Lean 4 proof (cache index; evaluator with caches and duplicate tracking for every single-variable and/or tree, "
+             "induction over the tree with a specification per operator cache) + differential (cache on/off/oracle/L2 machine) "
+             "correspondence"),
     'C07': dict(
         text="Iter.lean: generator-style evaluation over a memoised one-shot domain. c07_no_work_before_first, c07_prefix (at the "
              "k-th result exactly the prefix ending at the k-th qualifying element has been pulled; list equality), c07_pull_once "
